@@ -68,3 +68,24 @@ package document
 //@   invariant live(tocSDT.Content.Elements[1].(*Paragraph)) && live(tocSDT.Content.Elements[1].(*Paragraph).Properties) && live(tocSDT.Content.Elements[1].(*Paragraph).Properties.ParagraphStyle)
 //@   invariant forall k int :: {entries[k]} 0 <= k && k < #i ==> 1 <= entries[k].Level && styParaHasStyle(tocSDT.Content.Elements[2 + k]) && styIsTOCEntryId(styParaStyle(tocSDT.Content.Elements[2 + k])) && live(tocSDT.Content.Elements[2 + k].(*Paragraph)) && live(tocSDT.Content.Elements[2 + k].(*Paragraph).Properties) && live(tocSDT.Content.Elements[2 + k].(*Paragraph).Properties.ParagraphStyle)
 //@   decreases len(entries) - #i
+
+// ApplyTableStyle writes the style reference of a table: the caller's own id (config.StyleID - the caller's choice,
+// like SetStyle) or, when a template is chosen, the template NAME.
+// post-template-defined (C13) - KNOWN FINDING, recorded in /verif/KNOWN_FINDINGS.json, not repaired. The clause
+//     ensures string(config.Template) != "" ==> styIsTableStyleId(t.Properties.TableStyle.Val)
+// is refuted by the second postcondition below (the value IS the template name) and is therefore not generated: an
+// obligation that can only time out would cost the property check 40 s on every run. The template name
+// is written as w:tblStyle, but none of the fifteen names (TableNormal, TableGrid, TableList, TableColorful1..3,
+// TableColumns1..3, TableRows1..3, TablePlain1..3) is the id of a style in the registry (it defines the table styles
+// "a1" = Normal Table and "ab" = Table Grid only), so the saved package refers to a table style it does not define.
+// Failing history: New(); tb := AddTable(2x2); tb.ApplyTableStyle(&TableStyleConfig{Template: TableStyleTemplateGrid});
+// Save -> document.xml has w:tblStyle w:val="TableGrid", styles.xml has no w:styleId="TableGrid".
+// The repair (fifteen table style definitions, or a mapping onto defined ones) is a feature, not a patch.
+//@ spec styIsTableStyleId(v string) bool = v == "a1" || v == "ab"
+//@ func (*Table).ApplyTableStyle
+//@ props C13
+//@ requires t != nil && config != nil
+//@ ensures result == nil
+//@ ensures string(config.Template) != "" ==> t.Properties != nil && t.Properties.TableStyle != nil && t.Properties.TableStyle.Val == string(config.Template)
+//@ ensures string(config.Template) == "" && config.StyleID != "" ==> t.Properties != nil && t.Properties.TableStyle != nil && t.Properties.TableStyle.Val == config.StyleID
+//@ ensures string(config.Template) == "" && config.StyleID == "" ==> t.Properties != nil && t.Properties.TableStyle == old(ite(t.Properties == nil, nil, t.Properties.TableStyle))
